@@ -5,7 +5,7 @@ use buffer_redux::BufReader;
 use byteorder::{BigEndian, ByteOrder};
 use nom::{
     branch::alt,
-    bytes::streaming::{tag, take, take_until, take_until1},
+    bytes::streaming::{tag, take, take_until},
     character::streaming::{digit1, line_ending, not_line_ending, space0},
     combinator::{complete, map, map_res, opt, success, value},
     multi::many0,
@@ -191,30 +191,24 @@ fn armor_header_line(i: &[u8]) -> IResult<&[u8], BlockType> {
 
 /// Parses a single key value pair, for the header.
 fn key_value_pair(i: &[u8]) -> IResult<&[u8], (&str, &str)> {
-    let (i, key) = map_res(
-        alt((
-            complete(take_until1(":\r\n")),
-            complete(take_until1(":\n")),
-            complete(take_until1(": ")),
-        )),
-        str::from_utf8,
-    )
-    .parse(i)?;
+    let parse_error = || nom::Err::Error(nom::error::Error::new(i, nom::error::ErrorKind::Tag));
 
-    // consume the ":"
-    let (i, _) = tag(":")(i)?;
-    let (i, t) = alt((tag(" "), line_ending)).parse(i)?;
+    // An armor header is a single line, the key/value separator is only looked for in that line.
+    let (rest, line) = terminated(not_line_ending, line_ending).parse(i)?;
 
-    let (i, value) = if t == b" " {
-        let (i, value) = map_res(not_line_ending, str::from_utf8).parse(i)?;
-        let (i, _) = line_ending(i)?;
-        (i, value)
-    } else {
+    let (key, value) = match memchr::memmem::find(line, b": ") {
+        Some(pos) => (&line[..pos], &line[pos + 2..]),
         // empty value
-        (i, "")
+        None => (line.strip_suffix(b":").ok_or_else(parse_error)?, &b""[..]),
     };
+    if key.is_empty() {
+        return Err(parse_error());
+    }
 
-    Ok((i, (key, value)))
+    let key = str::from_utf8(key).map_err(|_| parse_error())?;
+    let value = str::from_utf8(value).map_err(|_| parse_error())?;
+
+    Ok((rest, (key, value)))
 }
 
 /// Parses a list of key value pairs.
